@@ -1,4 +1,4 @@
-import Qentem.Proofs.HashTableResize
+import Qentem.Proofs.HashTableSort
 /-!
 One step of the layout model refines one step of the slot specification; lifted to operation
 sequences by induction.
@@ -9,8 +9,6 @@ variable {V : Type}
 /-- Operations whose refinement proof is complete (the others are stated in `Props/C13.lean`). -/
 def Op.Proved : Op V → Prop
   | .rename _ _ => False
-  | .sort _ => False
-  | .merge _ _ => False
   | _ => True
 
 /-- One step: no fault, invariant kept, same abstract effect and same output. -/
@@ -53,13 +51,18 @@ theorem step_refines [Inhabited V] {H : List Nat → Nat} (ord : Nat → Nat) (h
     exact ⟨clear s, .unit, by simp [step], (clear_spec hI).1, by simp [Spec.step, (clear_spec hI).2]⟩
   | reset =>
     exact ⟨reset s, .unit, by simp [step], (reset_spec hI).1, by simp [Spec.step, (reset_spec hI).2]⟩
-  | sort a => exact absurd hop (by simp [Op.Proved])
+  | sort a =>
+    obtain ⟨s', hrun, hI', habs⟩ := sort_spec ord hI a
+    exact ⟨s', .unit, by simp [step, hrun], hI', by simp [Spec.step, habs]⟩
   | copy =>
     obtain ⟨s', hrun, hI', habs⟩ := copy_spec hI
     exact ⟨s', .unit, by simp [step, hrun], hI', by simp [Spec.step, habs]⟩
   | move =>
     exact ⟨s, .unit, by simp [step, moveFrom], hI, by simp [Spec.step]⟩
-  | merge ins rem => exact absurd hop (by simp [Op.Proved])
+  | merge ins rem =>
+    obtain ⟨src, hb, hS, habsS⟩ := buildOperand_spec hH ins rem
+    obtain ⟨s', hrun, hI', habs⟩ := merge_spec hH hI hS
+    exact ⟨s', .unit, by simp [step, hb, hrun], hI', by simp [Spec.step, habs, habsS]⟩
 
 /-- Every operation sequence: the run never faults, ends in a state satisfying the invariant, and
 its abstract state and all outputs are those of the specification. -/
